@@ -15,6 +15,7 @@ CONSTANTS
   GuardInactive = FALSE
   GuardHealth = TRUE
   OwnDelete = FALSE
+  CacheMiss = FALSE
 VIEW view
 CHECK_DEADLOCK FALSE
 PROPERTIES InactiveNeverCreates
